@@ -83,18 +83,23 @@ class CtorGen:
         return t
 
     def v_float(self, t):
+        """the value is kept AS THE SCHEMA FILE SPELLS IT: an integral float is written N.0 in CUE (an integer literal
+        is not a float there) and in JSON Schema (python prints floats that way; cog's unwrapJSONNumber turns the
+        literal `3` into an int64 and `3.0` into a float64)"""
         r = self.rng
+        dotted = self.fmt in ("cue", "jsonschema")
         c = r.random()
         if c < 0.25:
             x = Decimal(r.randint(-50, 50))            # integral value of a float field
-            return Decimal(str(int(x)) + ".0") if self.fmt == "cue" else x
-        if c < 0.35:
+        elif c < 0.35:
             if t["w"] == "float32":      # a float32 prints back at most 6 significant digits
-                return Decimal(r.choice(["150000.5", "0.00025", "-2500000.0" if self.fmt == "cue" else "-2500000"]))
-            return Decimal(r.choice(["1500000.5", "0.00025", "12345678.25", "-2500000.0" if self.fmt == "cue" else "-2500000"]))
-        x = Decimal(r.randint(-9999, 9999)) / Decimal(r.choice([2, 4, 8, 10, 100]))
+                x = Decimal(r.choice(["150000.5", "0.00025", "-2500000"]))
+            else:
+                x = Decimal(r.choice(["1500000.5", "0.00025", "12345678.25", "-2500000"]))
+        else:
+            x = Decimal(r.randint(-9999, 9999)) / Decimal(r.choice([2, 4, 8, 10, 100]))
         if x == x.to_integral_value():
-            x = Decimal(str(int(x)) + ".0") if self.fmt == "cue" else Decimal(int(x))   # CUE: an integer literal is not a float
+            x = Decimal(str(int(x)) + ".0") if dotted else Decimal(int(x))
         return x
 
     def v_string(self):
